@@ -62,6 +62,14 @@ mod libmv {
     use ::glam_libm as glam;
     include!("suite.rs");
 }
+/// the same checks with `glam-assert` compiled in: every generated input satisfies the documented preconditions
+/// (unit axes, pure rotations, non-zero scales), so a panic there is a failure
+#[cfg(not(feature = "core"))]
+mod asserting {
+    pub const VARIANT: &str = "simd+glam-assert";
+    use ::glam_assert as glam;
+    include!("suite.rs");
+}
 #[cfg(feature = "core")]
 mod core_simd {
     pub const VARIANT: &str = "core";
@@ -78,6 +86,7 @@ fn main() {
         subs.extend(simd::subs(&args));
         subs.extend(scalar::subs(&args));
         subs.extend(libmv::subs(&args));
+        subs.extend(asserting::subs(&args));
     }
     #[cfg(feature = "core")]
     {
